@@ -277,6 +277,7 @@ def apply_some_edit(s, rng, kw=None):
 def edit_and_resolve(s, cases, rng, rail_rep, kw):
     """solve - edit - solve: after the system has been solved once it is edited (apply_some_edit) and solved again; the
     new table is held to the projected state after the edit like any other"""
+    from project import project
     r = apply_some_edit(s, rng, kw)
     if r is None:
         return
